@@ -568,7 +568,9 @@ Excluded_F_C05_5(X, f) ==
     IsAssert(f) /\ f.s # "E" /\ IsT(f.t) /\ \E m \in IMeths(f.s) : X.rkj[TIdx(f.t)][m] = "ptr"
 \* F-C05-6: a struct value held by an interface value or by a method value with a value
 \* receiver is not a copy (class computed by Late: the form can tell a copy from an alias)
-Excluded_F_C05_6(F, f) == f.x = "copy"
+\* (calls and method values through an INTERPRETED interface value were repaired in /repo by "fix: an
+\* interface value holds a copy of a struct or array": icallc / imvalc are checked again)
+Excluded_F_C05_6(F, f) == f.x = "copy" /\ f.k \notin {"icallc", "imvalc"}
 \* F-C05-7: method expressions other than a direct call of T.m declared on T itself with that receiver kind
 Excluded_F_C05_7(F, f) ==
     \/ f.k \in {"mexpvf", "mexppf"}
